@@ -191,6 +191,90 @@ pub proof fn lemma_c04_auto_v2(s: Seq<u8>, t: Seq<u8>, r1: crate::HeaderResult, 
     assert(v2_class(s + t) == 0);
 }
 
+// [props: C04 C06]
+/// auto-detecting parser, v1 header: the reported header bytes on their own start with `P` as well, are handed to
+/// the v1 byte parser and have the verdict of the whole input
+pub proof fn lemma_c04_auto_v1_alone(s: Seq<u8>, r1: crate::HeaderResult, r3: crate::HeaderResult)
+    requires c06_post(s, r1), c06_post(v1_window(s), r3), r1 matches crate::HeaderResult::V1(x) && x is Ok
+    ensures r3 matches crate::HeaderResult::V1(y) && y is Ok
+        && y->Ok_0.addresses == r1->V1_0->Ok_0.addresses
+        && cow_str_bytes(y->Ok_0.header) =~= cow_str_bytes(r1->V1_0->Ok_0.header),
+        cow_str_bytes(r1->V1_0->Ok_0.header) =~= v1_window(s),
+{
+    lemma_c06_exclusive(s);
+    lemma_c04_v1_bytes(s, Seq::<u8>::empty());
+    lemma_bytes_accept_window(s);
+    let w = v1_window(s);
+    lemma_window_accept(s);
+    assert(s[0] == 80u8) by {
+        lemma_accept_shape(w);
+        assert(w.subrange(0, 5)[0] == 80u8);
+    }
+    assert(w[0] == s[0]);
+    lemma_v2_class_of_p(w);
+}
+
+// [props: C04 C06]
+/// auto-detecting parser, v2 header: the reported header bytes on their own (the first 16 + declared length bytes)
+/// are accepted by the v2 parser, so the auto-detecting parser returns the v2 result for them too (lemma_c04_v2
+/// then gives the identical header)
+pub proof fn lemma_c04_auto_v2_alone(s: Seq<u8>, r1: crate::HeaderResult, r3: crate::HeaderResult)
+    requires c06_post(s, r1), r1 matches crate::HeaderResult::V2(x) && x is Ok, c06_post(r1->V2_0->Ok_0.header@, r3)
+    ensures r3 matches crate::HeaderResult::V2(y) && y is Ok && c02_post(r1->V2_0->Ok_0.header@, y) && c02_post(s, r1->V2_0)
+{
+    assert(v2_accepts(s));
+    let h = r1->V2_0->Ok_0.header@;
+    let total = v2_total(s);
+    assert(h =~= s.subrange(0, total));
+    assert(h.subrange(0, 12) =~= s.subrange(0, 12));
+    assert(h[12] == s[12] && h[13] == s[13] && h[14] == s[14] && h[15] == s[15]);
+    assert(v2_accepts(h));
+    assert(v2_class(h) == 0);
+}
+
+// [props: C01]
+/// C01 for the BYTE entry point, from the clauses Verus proves on `try_from(&[u8])`: success iff the input starts
+/// with a well-formed line (ended by its first CR followed by LF) that is valid UTF-8 - the "arbitrary (valid UTF-8)
+/// text" of an UNKNOWN line; TCP lines are US-ASCII anyway; the header text is that line, the addresses the ones written
+#[verifier::rlimit(60)]
+pub proof fn lemma_c01_bytes(s: Seq<u8>, r: Result<V1Header, V1BinError>)
+    requires
+        r is Ok <==> entry_verdict_bytes(s) matches V1BV::Line(V1V::Accept(_)),
+        r is Ok ==> bin_realises(v1_window(s), r, entry_verdict_bytes(s)),
+    ensures
+        r is Ok <==> (v1_terminated(s) && valid_utf8(v1_window(s)) && exists|a: V1Addresses| wf_line(v1_window(s), a)),
+        r matches Ok(h) ==> cow_str_bytes(h.header) =~= v1_window(s) && wf_line(v1_window(s), h.addresses),
+{
+    broadcast use crate::prelude::prelude_str_axioms;
+    broadcast use crate::prelude::prelude_utf8_axioms;
+    let w = v1_window(s);
+    if entry_verdict_bytes(s) matches V1BV::Line(V1V::Accept(_)) {
+        lemma_bytes_accept_window(s);
+        lemma_window_accept(s);
+        let a = header_verdict(w)->Accept_0;
+        assert(line_verdict(w) == V1V::Accept(a));
+        match a {
+            V1Addresses::Unknown => { lemma_accepted_unknown_wf(w); },
+            V1Addresses::Tcp4(x) => { lemma_accepted_tcp4_wf(w, x); },
+            V1Addresses::Tcp6(x) => { lemma_accepted_tcp6_wf(w, x); },
+        }
+        assert(wf_line(w, a));
+    }
+    if v1_terminated(s) && valid_utf8(w) && exists|a: V1Addresses| wf_line(w, a) {
+        let a = choose|a: V1Addresses| wf_line(w, a);
+        match a {
+            V1Addresses::Unknown => { lemma_unknown_line_accepted(w); },
+            V1Addresses::Tcp4(x) => { lemma_wf_tcp4_accepted(w, x); },
+            V1Addresses::Tcp6(x) => { lemma_wf_tcp6_accepted(w, x); },
+        }
+        assert(line_verdict(w) == V1V::Accept(a));
+        assert(header_verdict(w) == V1V::Accept(a));
+        // a terminated input is not "107 bytes without CR"
+        lemma_first_index_bounds(s, 13u8);
+        assert(entry_verdict_bytes(s) == V1BV::Line(V1V::Accept(a)));
+    }
+}
+
 // [props: C18]
 /// byte entry point: once the first CR is followed by a byte, or 107 bytes arrived without a CR,
 /// the verdict is final (a success, a terminal error, or invalid UTF-8)
